@@ -18,7 +18,8 @@ RULE = ("(a) breadth-first search over histories of enter / leave / leave-by-exc
         "restricted aspect violated at a time (non-conforming name for each of the 21 object kinds, set identifier, "
         "header id, validated IDENT attributes; signed-integer channel; channel in 0 / 2 frames; non-uniform index; "
         "non-standard unit on a channel / on an attribute, index type, equipment type and location) x {inside, nested "
-        "inside, outside, after leaving by exception}: inside every breach must raise and the conforming file must "
+        "inside, outside, after leaving by exception, object created outside and value assigned inside, object created "
+        "inside and value assigned after leaving}: inside every breach must raise and the conforming file must "
         "satisfy all restrictions at once (checked on the decoded file, incl. sequential file-set numbers); outside "
         "the same inputs must be accepted and produce a WARNING log record; non-trivial = every case")
 ASSUMPTIONS = ["strict reader mc/rp66.py", "'set identifier' = storage-set identifier of the label (EFLR set names are "
@@ -199,6 +200,22 @@ ASPECTS = [f'name:{k}' for k in KINDS] + ['set-identifier', 'header-id', 'ident:
                                           'channel-in-two-frames', 'non-uniform-index', 'unit:channel', 'unit:attr',
                                           'index-type', 'eq-type', 'eq-location', 'none', 'none-no-fsn']
 WHERE = ['inside', 'nested', 'outside', 'after-exception']
+# the object is created in one mode and the breaching value is assigned (through the public setters) in the other
+CROSS = ['cross:out-in', 'cross:in-out']
+LATER = {
+    'unit:channel': ({'op': 'set', 'h': 'C0', 'attr': 'units', 'part': 'value', 'value': 'furlong'}, None),
+    'unit:attr': ({'op': 'set', 'h': 'X', 'attr': 'spacing', 'part': 'units', 'value': 'my-unit'},
+                  ('axis', 'X', 'AXIS', {'spacing': 1.0})),
+    'index-type': ({'op': 'set', 'h': 'F0', 'attr': 'index_type', 'part': 'value', 'value': 'MY-INDEX'}, None),
+    'eq-type': ({'op': 'set', 'h': 'X', 'attr': '_type', 'part': 'value', 'value': 'Custom-Type'},
+                ('equipment', 'X', 'EQUIPMENT', {})),
+    'eq-location': ({'op': 'set', 'h': 'X', 'attr': 'location', 'part': 'value', 'value': 'Somewhere'},
+                    ('equipment', 'X', 'EQUIPMENT', {})),
+    'ident:axis_id': ({'op': 'set', 'h': 'X', 'attr': 'axis_id', 'part': 'value', 'value': 'Axis id'},
+                      ('axis', 'X', 'AXIS', {})),
+    'ident:serial_number': ({'op': 'set', 'h': 'X', 'attr': 'serial_number', 'part': 'value', 'value': 'sn 12'},
+                            ('equipment', 'X', 'EQUIPMENT', {})),
+}
 
 
 def shards(tier):
@@ -208,6 +225,26 @@ def shards(tier):
 def cases(shard, tier):
     for w in WHERE:
         yield {'aspect': shard['aspect'], 'where': w}
+    if shard['aspect'] in LATER:
+        for w in CROSS:
+            yield {'aspect': shard['aspect'], 'where': w}
+
+
+def cross_spec(aspect, where):
+    sp = conforming_spec()
+    set_op, creation = LATER[aspect]
+    if creation:
+        kind, h, name, kw = creation
+        sp['ops'].append(S.op_add(kind, h, name, **kw))
+    set_op = dict(set_op)
+    if where == 'cross:out-in':
+        # everything is created outside the mode; the assignment and the write happen inside
+        set_op['expect'] = 'raise'
+        sp['ops'] += [{'op': 'hc', 'enter': True}, set_op]
+    else:
+        # everything is created inside the mode; the assignment and the write happen after leaving it
+        sp['ops'] = [{'op': 'hc', 'enter': True}] + sp['ops'] + [{'op': 'hc', 'enter': False}, set_op]
+    return sp
 
 
 def breach_spec(aspect):
@@ -319,9 +356,41 @@ def run_case(c):
     from dliswriter import high_compatibility_mode
     from dliswriter.configuration import global_config
     aspect, where = c['aspect'], c['where']
+    viol = []
+    if where in CROSS:
+        sp = cross_spec(aspect, where)
+
+        def build_and_write():
+            b = S.build(sp)
+            st = list(b.status)
+            wrote = None
+            if b.failed_at is None and all(x == 'ok' for x in st):
+                p_ = os.path.join(scratch_dir(), 'c17x.dlis')
+                try:
+                    b.df.write(p_, output_chunk_size=2 ** 16)
+                    wrote = 'ok'
+                except Exception as e:  # noqa
+                    wrote = f"raised:{type(e).__name__}: {e}"
+            S._unwind(b)
+            return st, wrote
+        try:
+            (st, wrote), recs = _with_logging(build_and_write)
+        finally:
+            global_config.high_compat_mode = False
+        assign_status = st[-1] if st else 'none'
+        if where == 'cross:out-in':
+            if assign_status == 'ok' and wrote == 'ok':
+                viol.append((f"C17:breach-accepted-inside:{aspect.split(':')[0]}:assigned-after-creation-outside",
+                             f"{aspect} assigned inside the mode to an object created outside it was accepted and written | {c}"))
+        else:
+            if assign_status != 'ok' or wrote != 'ok':
+                viol.append((f"C17:raised-outside:{aspect.split(':')[0]}:object-created-inside",
+                             f"{assign_status} / {wrote}: after leaving the mode the assignment must be accepted | {c}"))
+            elif not [r for r in recs if r.levelno >= logging.WARNING]:
+                viol.append((f"C17:no-warning-outside:{aspect.split(':')[0]}", f"{c}"))
+        return Outcome(f"{where}:{'rejected' if assign_status != 'ok' else 'accepted'}", viol, True, digest=str(assign_status)[:30])
     sp = breach_spec(aspect)
     breach = not aspect.startswith('none')
-    viol = []
 
     def go():
         return S.run_spec(sp)
